@@ -67,6 +67,10 @@ def grad(val, tens, core_indices = None):
         if core_indices == None:
             return [tn.zeros_like(c) for c in tens.cores]
         return [tn.zeros_like(tens.cores[idx]) for idx in core_indices]
+    for c in tens.cores:
+        if c.requires_grad and not c.is_leaf:
+            # cores produced by differentiable operations (clone(), x + y, ...) are not leaves: keep their gradient as well
+            c.retain_grad()
     val.retain_grad()
     val.backward()
     # a core the value does not depend on keeps .grad == None: its derivative is zero
@@ -101,6 +105,11 @@ def grad_list(val, tensors, all_in_one = True):
         if all_in_one:
             return [tn.zeros_like(c) for t in tensors for c in t.cores]
         return [[tn.zeros_like(c) for c in t.cores] for t in tensors]
+    for t in tensors:
+        for c in t.cores:
+            if c.requires_grad and not c.is_leaf:
+                # see grad(): cores that are not leaves keep their gradient as well
+                c.retain_grad()
     val.backward()
     # see grad(): the derivative w.r.t. a core the value does not depend on is zero
     cores_list = []
